@@ -180,6 +180,9 @@ pub struct Flow {
     pub restarts: Vec<(u64, BTreeMap<String, Val>)>,
     /// every (counter, last contact) pair the model held at some completed step
     pub model_pairs: Vec<(u64, Option<i64>)>,
+    /// the same with the per-app state that goes with it (None: before anything was persisted by this
+    /// incarnation, i.e. whatever the surviving storage holds)
+    pub model_tuples: Vec<(u64, Option<i64>, Option<Vec<AppSnap>>)>,
 }
 
 pub fn retry_after(headers: &[(String, Vec<u8>)]) -> RetryAfter {
@@ -321,6 +324,7 @@ pub fn analyze_multi(log: &[Rec], setups: &[Setup], preload: &BTreeMap<String, V
     let mut setup = &setups[0];
     let mut st = initial_state(setup, preload);
     f.model_pairs.push((st.failed, st.last_contact_us));
+    f.model_tuples.push((st.failed, st.last_contact_us, None));
     let mut cur: Option<CheckView> = None;
     let mut last_allowed: Option<(u64, Decision, bool)> = None;
     let mut cur_wait: Option<RebootWait> = None;
@@ -346,6 +350,7 @@ pub fn analyze_multi(log: &[Rec], setups: &[Setup], preload: &BTreeMap<String, V
                 f.restarts.push((r.seq, committed.clone()));
                 st = initial_state(setup, &committed);
                 f.model_pairs.push((st.failed, st.last_contact_us));
+                f.model_tuples.push((st.failed, st.last_contact_us, None));
                 last_allowed = None;
             }
             Ev::Commit { ok, snapshot } => {
@@ -453,6 +458,7 @@ pub fn analyze_multi(log: &[Rec], setups: &[Setup], preload: &BTreeMap<String, V
                     finish_check(&mut c, &mut st, setup);
                     f.checks.push(c);
                     f.model_pairs.push((st.failed, st.last_contact_us));
+                    f.model_tuples.push((st.failed, st.last_contact_us, Some(st.apps.clone())));
                 }
             }
             Ev::StreamEnd => f.ended = true,
@@ -510,6 +516,7 @@ pub fn analyze_multi(log: &[Rec], setups: &[Setup], preload: &BTreeMap<String, V
                     }
                     p.after = st.clone();
                     f.model_pairs.push((st.failed, st.last_contact_us));
+                    f.model_tuples.push((st.failed, st.last_contact_us, Some(st.apps.clone())));
                 }
             }
             Ev::TimerArm { id, spec } => {
